@@ -623,3 +623,85 @@ def _roots_def(f, defs, pl, d, depth, _seen):
 
 def root_calls(rs):
     return [r[1] for r in rs if r[0] == 'call']
+
+
+def unit_counters(f):
+    """{local: {'init': k, 'dir': +1|-1, 'steps': [block index]}} for the locals of a body that are only ever assigned a constant
+    (once) or their own value plus / minus one (checked or plain arithmetic): budgets and counters, whichever way they count."""
+    writes = collections.defaultdict(list)
+    for bi, b in blocks(f):
+        for s in b['stmts']:
+            if s['k'] == 'assign':
+                writes[s['place']['local']].append((bi, s, bool(s['place']['proj'])))
+        t = b['term']
+        if t['k'] == 'call':
+            writes[t['dest']['local']].append((bi, None, bool(t['dest']['proj'])))
+    tmp = {}
+    for l, ws in writes.items():
+        if len(ws) == 1 and ws[0][1] is not None and not ws[0][2]:
+            tmp[l] = ws[0][1]['rv']
+
+    def _step_of(rv, c):
+        """+1 / -1 when rv computes `c +/- 1`"""
+        if rv['k'] == 'binop' and rv['op'].split('With')[0] in ('Add', 'Sub') and rv['l'].get('k') in ('copy', 'move') \
+                and not rv['l']['place']['proj'] and rv['l']['place']['local'] == c and op_const(rv['r']) == 1:
+            return 1 if rv['op'].startswith('Add') else -1
+        return None
+    # temporaries holding the result of `c.checked_add(1)` / `c.checked_sub(1)`: local -> (counter, +1 | -1)
+    checked = {}
+    for bi, b in blocks(f):
+        t = b['term']
+        if t['k'] == 'call' and not t['dest']['proj'] and len(t['args']) == 2 and op_const(t['args'][1]) == 1 \
+                and t['args'][0].get('k') in ('copy', 'move') and not t['args'][0]['place']['proj']:
+            p = call_path(t) or ''
+            if p.startswith('core::num::') and p.endswith(('::checked_sub', '::checked_add')):
+                src = t['args'][0]['place']['local']
+                for _ in range(3):      # the receiver is usually a temporary copy of the counter
+                    rv_ = tmp.get(src)
+                    if rv_ is not None and rv_['k'] == 'use' and rv_['x'].get('k') in ('copy', 'move') and not rv_['x']['place']['proj']:
+                        src = rv_['x']['place']['local']
+                    else:
+                        break
+                checked[t['dest']['local']] = (src, -1 if p.endswith('sub') else 1)
+
+    def _payload_of_checked(pl, c, depth=0):
+        """+1 / -1 when the place is the Some payload of `c.checked_add/sub(1)` (possibly copied into a named local first)"""
+        if depth > 3:
+            return None
+        if pl['local'] in checked and pl['proj'] and any(q['k'] == 'field' and q.get('i') == 0 for q in pl['proj']):
+            cc, d = checked[pl['local']]
+            return d if cc == c else None
+        if not pl['proj'] and pl['local'] in tmp:
+            rv = tmp[pl['local']]
+            if rv['k'] == 'use' and rv['x'].get('k') in ('copy', 'move'):
+                return _payload_of_checked(rv['x']['place'], c, depth + 1)
+        return None
+    out = {}
+    for c, ws in writes.items():
+        if c <= f['arg_count'] or len(ws) < 2 or any(w[1] is None or w[2] for w in ws):
+            continue
+        init, dirs, steps, ok = None, set(), [], True
+        for bi, s, _ in ws:
+            rv = s['rv']
+            if rv['k'] == 'use' and rv['x'].get('k') == 'const' and isinstance(op_const(rv['x']), int):
+                if init is not None:
+                    ok = False
+                init = op_const(rv['x'])
+                continue
+            d = _step_of(rv, c)
+            if d is None and rv['k'] == 'use' and rv['x'].get('k') in ('copy', 'move'):
+                pl = rv['x']['place']
+                if len(pl['proj']) == 1 and pl['proj'][0]['k'] == 'field' and pl['proj'][0].get('i') == 0 and pl['local'] in tmp:
+                    d = _step_of(tmp[pl['local']], c)
+                elif not pl['proj'] and pl['local'] in tmp:
+                    d = _step_of(tmp[pl['local']], c)
+            if d is None and rv['k'] == 'use' and rv['x'].get('k') in ('copy', 'move'):
+                d = _payload_of_checked(rv['x']['place'], c)
+            if d is None:
+                ok = False
+                break
+            dirs.add(d)
+            steps.append(bi)
+        if ok and init is not None and len(dirs) == 1 and steps:
+            out[c] = {'init': init, 'dir': dirs.pop(), 'steps': steps}
+    return out
